@@ -34,7 +34,7 @@ DICTIONARY = [
     ".inf", "-.INF", ".NaN", "1e3", "1.5", "2001-01-01", "2001-01-01 10:00:00.5 +01:30", "!!binary ", "!!set ", "!!omap ", "!!pairs ",
     "!!timestamp ", "!!bool ", "!!float ", "!!null ", "!!merge ", "!!value ", "a", "b", "k", "key", "a b", "word word word",
     "\U0001F600", "é", "中", "́", "%41", "%C3%A9", "tag:yaml.org,2002:", "@", "`", "%", "|\n  ", ">\n  ", ": |\n    ",
-    "- - ", "- ? ", "? - ", "- k: ", "? [", ": [", "[ ", " ]", "{ ", " }", "a: 1\n", "- a\n", "&a [*a]", "[a, b]", "{a: b}", "? a\n: b\n",
+    "\xb2", "\u0663", "\uff11", "\u2460", "|\xb2", "%YAML 1.\u0661\n", "\\x\uff11\uff11", "- - ", "- ? ", "? - ", "- k: ", "? [", ": [", "[ ", " ]", "{ ", " }", "a: 1\n", "- a\n", "&a [*a]", "[a, b]", "{a: b}", "? a\n: b\n",
 ]
 
 
